@@ -1452,10 +1452,57 @@ class Engine:
         self.solver.pop()
         return r == z3.unsat
 
+    def bitmask_of(self, t, depth=0):
+        """Over-approximation of the set of bits that can be 1 in the non-negative term t (None if unknown)."""
+        from .intervals import interval, INF
+        c = conc_int(t)
+        if c is not None:
+            return c if c >= 0 else None
+        if depth > 30:
+            return None
+        # NOTE: the term is inspected as built (z3's simplifier would distribute constants and hide the bit structure)
+        if z3.is_mul(t):
+            k = 0
+            rest = []
+            for ch in t.children():
+                if z3.is_int_value(ch):
+                    c = ch.as_long()
+                    if c <= 0 or (c & (c - 1)) != 0:
+                        rest = None
+                        break
+                    k += c.bit_length() - 1
+                else:
+                    rest.append(ch)
+            if rest is not None and len(rest) == 1:
+                m = self.bitmask_of(rest[0], depth + 1)
+                return None if m is None else m << k
+        if z3.is_add(t):
+            total = 0
+            for ch in t.children():
+                m = self.bitmask_of(ch, depth + 1)
+                if m is None or (m & total):
+                    total = None
+                    break
+                total |= m
+            if total is not None:
+                return total
+        if z3.is_app(t) and t.decl().kind() == z3.Z3_OP_ITE:
+            a, b = self.bitmask_of(t.arg(1), depth + 1), self.bitmask_of(t.arg(2), depth + 1)
+            if a is not None and b is not None:
+                return a | b
+        lo, hi = interval(t, self.cur_bounds())
+        if lo >= 0 and hi != INF:
+            return (1 << int(hi).bit_length()) - 1
+        return None
+
     def bit_binop(self, op, x, y):
         cx, cy = conc_int(x), conc_int(y)
         if cx is not None and cy is not None:
             return z3.IntVal({"&": cx & cy, "|": cx | cy, "^": cx ^ cy}[op])
+        if op in ("|", "^"):
+            mx, my = self.bitmask_of(x), self.bitmask_of(y)
+            if mx is not None and my is not None and (mx & my) == 0:
+                return x + y   # no common bit can be set: or == xor == sum
         if op in ("|", "^"):
             # disjoint bit ranges: hi is a multiple of 2**k and 0 <= lo < 2**k  ==>  hi | lo == hi ^ lo == hi + lo
             for hi_, lo_ in ((x, y), (y, x)):
@@ -1814,6 +1861,8 @@ class Engine:
             ev = container.ev
             members = enum_members(ev.cls)
             return z3.Or([ev.t == i for i, m in enumerate(members) if item.s in m.name] + [z3.BoolVal(False)])
+        if isinstance(container, VStr) and isinstance(item, VStr):
+            return z3.BoolVal(item.s in container.s)
         if isinstance(container, VTuple):
             return z3.Or([self.equal(item, x) for x in container.items] + [z3.BoolVal(False)])
         if isinstance(container, VList):
